@@ -16,7 +16,7 @@ from pyvc.values import NativeModel
 import wntr.sim.hydraulics as hyd
 from wntr.sim.models.utils import ModelUpdater, Definition
 
-P = ["C05", "C02", "C08", "C09"]
+P = ["C05", "C02", "C08", "C09", "C07", "C10"]
 
 
 class Elem:
